@@ -390,3 +390,48 @@ Proof.
   rewrite H3. clear H1 H2 H3. intro He. injection He as Heq. rewrite Heq in H4.
   rewrite node_eqb_refl in H4. discriminate H4.
 Qed.
+
+(* --- non-vacuity: a configuration with global overrides, two scrape configs (relabeling with an
+   explicit empty separator / replacement, HTTP flags false), remote write with queue and
+   metadata settings, remote read, alerting, storage and otlp sections is valid and lossless *)
+Definition doc_example : node :=
+  NMap [("global", NMap [("scrape_interval", NInt (15 * second)); ("sample_limit", NInt 100);
+                         ("metric_name_validation_scheme", NStr "legacy")]);
+        ("runtime", NMap [("gogc", NInt 0)]);
+        ("alerting", NMap [("alertmanagers", NSeq [NMap [("scheme", NStr "https"); ("timeout", NInt (5 * second))]])]);
+        ("rule_files", NSeq [NStr "rules/*.yml"]);
+        ("scrape_configs", NSeq [
+           NMap [("job_name", NStr "a"); ("scrape_timeout", NInt (5 * second)); ("follow_redirects", NBool false);
+                 ("honor_timestamps", NBool false); ("sample_limit", NInt 0);
+                 ("relabel_configs", NSeq [NMap [("source_labels", NSeq [NStr "x"]); ("separator", NStr "");
+                                                 ("regex", NStr "(.*)"); ("target_label", NStr "y");
+                                                 ("replacement", NStr "")];
+                                           NMap [("action", NStr "labeldrop"); ("regex", NStr "tmp_.*")]])];
+           NMap [("job_name", NStr "b"); ("scrape_native_histograms", NBool true);
+                 ("metric_name_validation_scheme", NStr "utf8")]]);
+        ("storage", NMap [("tsdb", NMap [("out_of_order_time_window", NInt (30 * minute))]);
+                          ("exemplars", NMap [("max_exemplars", NInt 0)])]);
+        ("remote_write", NSeq [NMap [("url", NStr "http://r/w"); ("queue_config", NMap [("max_shards", NInt 10)]);
+                                     ("metadata_config", NMap [("send", NBool false)])]]);
+        ("remote_read", NSeq [NMap [("url", NStr "http://r/r"); ("read_recent", NBool true)]]);
+        ("otlp", NMap [("promote_resource_attributes", NSeq [NStr "service.name"]);
+                       ("translation_strategy", NStr "NoUTF8EscapingWithSuffixes")])].
+(* (the OTLP strategy above is rejected with legacy validation; the example uses utf8 globally) *)
+Definition doc_example_ok : node :=
+  match doc_example with
+  | NMap ((g, NMap gm) :: r) => NMap ((g, NMap (firstn 2 gm)) :: r)
+  | d => d
+  end.
+Definition cfg_example : node := match load doc_example_ok with Ok c => c | Err _ => NNull end.
+
+Lemma example_valid_lossless :
+  load doc_example_ok = Ok cfg_example /\ valid cfg_example = true /\ lossless cfg_example = true /\
+  load doc_example = Err (EInvalid 85) /\
+  (* inherited / defaulted values, to show the example is not degenerate *)
+  (exists scs, lookup "scrape_configs" (match cfg_example with NMap m => m | _ => [] end) = Some (NSeq scs) /\
+               map (fun s => match s with NMap m => (geti "scrape_interval" m, geti "sample_limit" m, getl "scrape_protocols" m) | _ => (0, 0, []) end) scs
+               = [(15 * second, 100, d_protocols); (15 * second, 100, NStr "PrometheusProto" :: d_protocols)]).
+Proof.
+  split; [vm_compute; reflexivity|]. split; [vm_compute; reflexivity|]. split; [vm_compute; reflexivity|].
+  split; [vm_compute; reflexivity|]. eexists. split; vm_compute; reflexivity.
+Qed.
